@@ -54,6 +54,12 @@ def strategy(tier):
 _tabs = {}
 
 
+def marks(env):
+    if "m" not in _tabs:
+        _tabs["m"] = bidi.Marks(env.paths["src"])
+    return _tabs["m"]
+
+
 def tables(env):
     if "t" not in _tabs:
         _tabs["t"] = layout.Tables(env.paths["src"])
@@ -121,6 +127,14 @@ def run_case(env, c):
             want = bidi.reorder(s, ctx, t) + [n - 1]
             if ordv != want:
                 return Outcome(False, nt, cl, detail={"why": "runs not reversed as documented", "got": ordv, "want": want, "case": c})
+        else:
+            # lines with mark characters: the documented procedure over the configured patterns (models/bidi.reorder_marks; the
+            # patterns are run by Python's re, not by the engine under test)
+            want = bidi.reorder_marks(s, ctx, marks(env)) + [n - 1]
+            if ordv != want:
+                return Outcome(False, nt, cl, detail={"why": "direction marks not applied as documented (span reversed in a right-to-left line, inner group in its own "
+                                                      "direction)", "got": ordv, "want": want, "case": c})
+        if True:
             # the same order as seen by the renderer: ren_position() reorders when the order option asks for it (2: always,
             # 1: lines with a non-ASCII character, 0: never) and the line is within linelimit; the columns are then the
             # prefix sums of the cell widths in that visual order
